@@ -24,6 +24,8 @@ TIMES = 'history/times.py'; HFILES = 'history/files.py'; TNETS = 'server/tnetstr
 POLL = 'server/enip/poll.py'; DEFAULTS = 'server/enip/defaults.py'; NETWORK = 'server/network.py'
 
 VARIANTS = [
+    V( 'bool-scaled-value', PARSER, "encoding = super( BOOL, cls ).produce( value )\n return encoding if encoding == b'\\x00' else b'\\xff'", "return super( BOOL, cls ).produce( 0xff * value )", fires=[ 'T-BOOL' ] ),
+    V( 'bool-by-truthiness', PARSER, "encoding = super( BOOL, cls ).produce( value )\n return encoding if encoding == b'\\x00' else b'\\xff'", "return super( BOOL, cls ).produce( 0xff if value else 0x00 )", silent=[ 'T-BOOL' ] ),
     V( 'one-context-shown-in-stats', MAIN, "if 'request' in data:\n stats['requests'] += 1\n try:\n # enip_process must be able to handle no request", "if 'request' in data:\n                    stats['requests'] += 1\n                    stats['context']	= bytes( bytearray( data.request.enip.sender_context.input )).decode( 'utf-8' )\n                try:\n                    # enip_process must be able to handle no request", fires=[ 'P-ONE' ] ),
     V( 'one-accepted-socket-with-timeout', NETWORK, "conn,addr = acceptable", "conn,addr	= acceptable; conn.settimeout( control['timeout'] )", fires=[ 'P-ONE' ] ),
     V( 'classstate-loader-values-shared', HFILES, "self.values = {}", "self.__class__.values	= {}", fires=[ 'W-CLASSSTATE' ] ),
